@@ -763,3 +763,61 @@ def redis_scan_exhaustive(ctx: Ctx, rule: str) -> None:
               f"redis __fetch_message_name bounds its paging with `{unparse(lp.test)}`{' / break' if brk else ''} (extra condition {extra}): only the first page(s) of the queue are ever inspected, "
               "so when they are filled with messages for other topics (or not yet due) this consumer never reaches its own deliverable messages - the worker stalls with work waiting", node=lp,
               instance="redis fetch exhaustive")
+
+
+def redis_poll_errors_contained(ctx: Ctx, rule: str) -> None:
+    """The Redis consumer polls from a background task nobody awaits. Where a poll step is guarded by a try, the guard catches Exception (the client's errors derive from
+    redis.exceptions.RedisError, NOT from the builtin ConnectionError / OSError family): a narrower guard lets one connection hiccup kill the task, after which the consumer
+    silently never delivers again."""
+    n = 0
+    for name in ("__fetch_message_name", "__get_message_name", "__get_message_details", "consume_or_none", "backgroud_consume"):
+        q = f"{C.REDIS_CONS}.{name}"
+        if q not in ctx.prog.functions:
+            continue
+        f = ctx.func(q)
+        for t in [x for x in C.own_nodes(f) if isinstance(x, ast.Try)]:
+            guarded = [a for st in t.body for a in ast.walk(st) if isinstance(a, ast.Await)]
+            if not guarded or not t.handlers:
+                continue
+            n += 1
+            classes = [unparse(h.type) if h.type is not None else "<bare>" for h in t.handlers]
+            broad = any(c in ("<bare>", "Exception", "BaseException") or "RedisError" in c for c in classes)
+            ctx.check(broad, rule, f, f"guard {classes} around {unparse(guarded[0])[:40]} in {f.short()}", "poll errors of any kind are contained",
+                      f"{f.short()} guards {unparse(guarded[0])[:50]} with `except {', '.join(classes)}`: redis-py's errors are not instances of these builtin classes, so a connection error "
+                      "during a poll escapes, ends the background consume task (nobody awaits it) and the consumer stalls", node=t, instance=f"{f.short()}: poll guard {classes}")
+    ctx.floor(rule, n, 2, "guarded poll steps in the Redis consumer")
+
+
+def rabbit_delivery_order(ctx: Ctx, rule: str) -> None:
+    """aiormq runs every delivery callback in its own task. on_new_message therefore reaches `queue.put` without suspending: a suspension point on the accepting path lets a
+    later (smaller, faster) delivery overtake an earlier one on its way into the local queue."""
+    f = ctx.func(f"{C.RABBIT_CONS}.on_new_message")
+    g = ctx.icfg(f)
+    aw = await_map(g)
+    puts = [n for n in g.calls() if (n.callee or "") == "self.queue.put"]
+    ctx.require(bool(puts), f"{f.qualname}: hand-out to the local queue not found")
+    for p in puts:
+        back = flow.reach_back(g, [p.id], flow.NORMAL_KINDS)
+        susp = [g.nodes[i] for i in back if flow.is_suspension(g.nodes[i]) and g.nodes[i].id != aw.get(p.id, p).id]
+        ctx.check(not susp, rule, f, "no suspension point between delivery and the local queue", "deliveries enter the local queue in arrival order",
+                  f"rabbitmq on_new_message can be suspended ({[s_.label[:50] for s_ in susp][:2]}) before it hands the message to the local queue: each delivery runs in its own task, so a later "
+                  "delivery that gets through faster is queued (and consumed) first", node=p, instance="rabbitmq: accept path not suspended")
+
+
+def rabbit_start_fails_loudly(ctx: Ctx, rule: str) -> None:
+    """A consumer that could not be (re)started must not look alive: when basic_consume is not confirmed, start() ends in an exception (the runner turns that into UNHEALTHY)."""
+    f = ctx.func(f"{C.RABBIT_CONS}.start")
+    g = ctx.cfg(f)
+    tests = [t for t in g.nodes if t.kind == "test" and "ConsumeOk" in (t.label or "")]
+    ctx.require(bool(tests), f"{f.qualname}: confirmation test not found")
+
+    def env(text, node):
+        if isinstance(node, ast.Call) and dotted(node.func) == "isinstance" and "ConsumeOk" in unparse(node):
+            return False
+        return None
+
+    r = flow.reach_under(g, {"*c": env}, flow.NORMAL_KINDS + ("raise",), start=tests[0].id)
+    raises = [n for n in g.nodes if n.kind == "raise" and n.id in r]
+    ctx.check(bool(raises) and g.exit.id not in r, rule, f, "unconfirmed basic_consume -> start() raises", "a failed (re)start is an exception, not a normal return",
+              "rabbitmq start() returns normally although basic_consume was not confirmed: the consumer receives nothing, consume() waits for ever and nothing marks the worker UNHEALTHY "
+              "(the health endpoint keeps answering 200)", instance="rabbitmq start fails loudly")
